@@ -76,6 +76,15 @@ def workload(ctx):
             for n in (cap - 3, cap - 2, cap - 1):
                 if n >= 1:
                     ev.append(hl([0xE9] * n, shape, (), (w, h), tag="b256-fill"))
+    # (5) macro envelopes round a run of ONE mode's native characters, every length: the trailer (RS EOT) is not part of the encoded
+    #     message, so end-of-data arithmetic that looks at the rest of the text must stop before it; with and without a tight MAX_SIZE
+    for macro in (MACRO05, MACRO06):
+        for unit in ([33], [65], [97], [49], [65, 42], [94, 64]):
+            for n in (list(range(1, 41)) if not ctx.quick or unit == [33] else list(range(1, 41, 3))) + [488, 489, 1736]:
+                t = macro + (unit * n)[:n] + TRAIL
+                ev.append(hl(t, tag="macro-run"))
+                if n <= 40 and n % 4 == 0:
+                    ev.append(hl(t, 0, (), rng.choice([(14, 14), (16, 16), (18, 18), (32, 8), (26, 12)]), tag="macro-run"))
     # (6) run-length sweeps: a run of one mode's native characters of EVERY length (mode-specific length fields, triplet / quadruple
     #     boundaries, end-of-data shortcuts that depend on the free codewords of the symbol reached), alone and after 1-3 digits
     runs = [([64], 100), ([65], 100), ([97], 100), ([65, 42], 60), ([94], 100), ([0xE9], 260), ([0x80], 60), ([49], 100), ([33, 63], 40)]
